@@ -3,6 +3,7 @@
 package obfs4
 
 import (
+	"bytes"
 	"gitlab.com/yawning/obfs4.git/common/ntor"
 	"gitlab.com/yawning/obfs4.git/internal/verifrt"
 	"gitlab.com/yawning/obfs4.git/transports/obfs4/framing"
@@ -184,5 +185,50 @@ func VerifC01HandshakeResidue() {
 		}
 	})
 	verifrt.Assert(verifrt.Equal(got, data), "data that followed the handshake is delivered intact")
+	verifrt.Reach("end")
+}
+
+// VerifC01Duplex: lemma L7 – one reader and one writer goroutine may use an endpoint at the
+// same time: Read and Write (all IAT modes, including the PRNG-seed control packet that
+// re-seeds the length distribution under its own mutex) touch disjoint mutable state. The
+// engine's footprint monitor records every location of the pre-existing connection state
+// that one role writes and the other reads or writes.
+func VerifC01Duplex() {
+	kTx := verifrt.Bytes("key_tx", framing.KeyLength)
+	kRx := verifrt.Bytes("key_rx", framing.KeyLength)
+	iatMode := verifrt.Pick("iat_mode", 0, 2)
+	verifrt.OnSample(func(min, max int) int {
+		if max != framing.MaximumSegmentLength {
+			return 0
+		}
+		return []int{0, 700}[verifrt.Pick("len_sample", 0, 1)]
+	})
+	// the peer's bytes: a PRNG seed packet, then two payload packets with padding
+	peer := vEndpoint(verifrt.NewConn("peer", nil), true, iatNone, kRx, kTx)
+	var fb bytes.Buffer
+	in1, in2 := verifrt.Bytes("in1", 3), verifrt.Bytes("in2", 2)
+	verifrt.Assume(peer.makePacket(&fb, packetTypePrngSeed, verifrt.Bytes("seed", seedPacketPayloadLength), 0) == nil)
+	verifrt.Assume(peer.makePacket(&fb, packetTypePayload, in1, 5) == nil)
+	cut := fb.Len()
+	verifrt.Assume(peer.makePacket(&fb, packetTypePayload, in2, 0) == nil)
+	c := verifrt.NewConn("c", append([]byte{}, fb.Bytes()...))
+	c.Cuts = []int{cut}
+	ep := vEndpoint(c, false, iatMode, kTx, kRx)
+	buf := make([]byte, 16)
+	out1, out2 := verifrt.Bytes("out1", 3), verifrt.Bytes("out2", 1)
+
+	verifrt.Role(1)
+	_, err := ep.Write(out1)
+	verifrt.Assert(err == nil, "write 1")
+	verifrt.Role(2)
+	n, err := ep.Read(buf)
+	verifrt.Assert(err == nil && verifrt.Equal(buf[:n], in1), "read 1 delivers the peer's first payload")
+	verifrt.Role(1)
+	_, err = ep.Write(out2)
+	verifrt.Assert(err == nil, "write 2")
+	verifrt.Role(2)
+	n, err = ep.Read(buf)
+	verifrt.Assert(err == nil && verifrt.Equal(buf[:n], in2), "read 2 delivers the peer's second payload")
+	verifrt.Role(0)
 	verifrt.Reach("end")
 }
